@@ -8,7 +8,7 @@ for id in $(python3 -c "import json; print(' '.join(c['property_id'] for c in js
   out=$(./check $id $tier 2>&1); rc=$?
   t1=$(date +%s)
   echo "$id rc=$rc secs=$((t1-t0)) $(echo "$out" | grep -E '^property=' | cut -c1-160)"
-  echo "$out" | grep -E "^VIOLATION|^KNOWN-FINDING|HARNESS-ERROR" | head -5
+  echo "$out" | grep -E "^VIOLATION|^KNOWN-FINDING|HARNESS-ERROR|^NOTE" | head -5
   [ $rc -ne 0 ] && rc_all=1
 done
 python3-vt - <<'PY'
